@@ -141,6 +141,7 @@ Proof. intro H. apply Rgt_not_eq. apply sqrt_lt_R0. exact H. Qed.
 
 Lemma safe_Dx i e : safe x e -> safe x (Dx i e).
 Proof.
+  clear k o.
   induction e; cbn [Dx safe]; intros H; try tauto.
   - destruct (Nat.eqb i0 i); exact I.
   - destruct H as (Ha & Hb & Hn). repeat split; try tauto.
